@@ -90,7 +90,33 @@ def run(ctx):
         k = rng.randrange(1, len(recs)); perms.append(recs[k:] + recs[:k])
         for _ in range(2 if ctx.quick else 5):
             p = list(recs); rng.shuffle(p); perms.append(p)
-        groups.append([Case(p, t, threads=th, fmt=("fasta" if longnames else rng.choice(["fasta", "clu", "msf"])), evlog=True) for p in perms])
+        grp = [Case(p, t, threads=th, fmt=("fasta" if longnames else rng.choice(["fasta", "clu", "msf"])), evlog=True) for p in perms]
+        if i % 7 == 5 and not longnames:
+            # more than 50 ragged records of which a few carry stray gap characters: whatever kalign concludes about "is this input aligned?" must
+            # not depend on WHERE in the file those records stand (first, last, shuffled)
+            nseq2 = rng.choice([56, 60, 75, 120])
+            recs2 = gen.family(rng, kind, nseq2, rng.choice([20, 45]), sub=0.15, indel=0.06, names=gen.name_pool(rng, nseq2, maxlen=12, charset="abcdefghijklmnopqrstuvwxyz0123456789"))
+            recs2 = [(n_, q_) for n_, q_ in recs2 if q_]
+            if len(recs2) > 52:
+                gapped = {}
+                for n_, q_ in rng.sample(recs2, rng.randint(1, 3)):
+                    cut = sorted(rng.randint(0, len(q_)) for _ in range(rng.randint(1, 4)))
+                    out_, prev = [], 0
+                    for c_ in cut:
+                        out_.append(q_[prev:c_]); out_.append("-"); prev = c_
+                    out_.append(q_[prev:])
+                    gapped[n_] = "".join(out_)
+                first = [r for r in recs2 if r[0] in gapped] + [r for r in recs2 if r[0] not in gapped]
+                last = [r for r in recs2 if r[0] not in gapped] + [r for r in recs2 if r[0] in gapped]
+                sh = list(recs2); rng.shuffle(sh)
+                t2 = gen.fit_type(5, kind, recs2)
+                grp = []
+                for order in (last, first, sh):
+                    c_ = Case(order, t2, threads=th, fmt="fasta", evlog=True, tag="stray gaps in %d of %d records" % (len(gapped), len(recs2)))
+                    c_.intext = "".join(">%s\n%s\n" % (n_, gapped.get(n_, q_)) for n_, q_ in order)
+                    grp.append(c_)
+                ctx.count("ragged_gap_records_beyond_50")
+        groups.append(grp)
     sysrun.run_cases(kvh, [c for g in groups for c in g])
     fails = []
     for g in groups:
